@@ -11,7 +11,7 @@ RULE = ("records n in 2..3000 of kinds dyadic/int/plateau/spike/step (dyadic dt:
         "(budget 1e-9); scale factors {-3,-1,1/2,2,1e6}; zero padding 0..200; standardised CAV: dt in "
         "{1,1/2,1/4,1/8,0.2,0.1,0.05,0.02,0.01,0.005}, durations 2..40 s, amplitudes around the 0.025 g gate. "
         "distinct = hash of (record, dt); non-trivial = length >= 3 and not constant")
-TIE = "correspondence (hand model Model/Im.lean on exact rationals; Arias constant pi/(2*9.81) applied on the Python side)"
+TIE = "translator (literals 9.81 / 0.025 / 2*9.81 of im.py regenerated into Gen/Consts, bridge Props/C09Gen) + correspondence (hand model Model/Im.lean on exact rationals; Arias constant pi/(2*9.81) applied on the Python side)"
 NOT_PROVED = ["length of the floating np.arange of CAVdp window abscissae (pps or pps+1 samples): the model integrates pps-1 panels, "
               "the oracle accepts either (the property allows one trapezoid panel per window)",
               "IEEE rounding of the sums (measured)"]
@@ -22,6 +22,8 @@ SERIES = [  # (name, impl function, model handler)
 ]
 K_ARIAS = math.pi / (2 * 9.81)
 
+
+PROP_MODULES = ['C09', 'C09Gen']
 
 def ftrapz(y, dx):
     return sum((y[i] + y[i + 1]) for i in range(len(y) - 1)) * dx / 2
